@@ -32,7 +32,7 @@ def floors(tier):
     return {"evaluations": 500 if q else 10000, "distinct_nontrivial": 120 if q else 2500, "pairs_checked": 800 if q else 16000,
             "expected_edges": 200 if q else 4000, "expected_no_edge": 400 if q else 8000, "isa:x86": 1, "isa:aarch64": 1,
             "with_bump": 150 if q else 3000, "with_index": 60 if q else 1200, "with_copy": 30 if q else 600, "killed_by_store": 10 if q else 200,
-            "kind:synth": 250 if q else 5000, "kind:curated": 200 if q else 4000, "a64_writeback_between": 15 if q else 300, "bump_copy_bump": 25 if q else 500, "symbolic_displacement": 20 if q else 400, "multi_destination_store": 40 if q else 800}
+            "kind:synth": 250 if q else 5000, "kind:curated": 200 if q else 4000, "a64_writeback_between": 15 if q else 300, "bump_copy_bump": 25 if q else 500, "symbolic_displacement": 20 if q else 400, "multi_destination_store": 40 if q else 800, "writeback_store_then_copy": 8 if q else 150}
 
 
 def plan(tier, seed):
@@ -93,7 +93,7 @@ def stl_kernel(rng, isa, vocab, curated=False):
         sm["disp"] = None
         sm["sym"] = rng.choice(["gvar", "tbl_a"])
         tags.add("symbolic_displacement")
-    if isa == "aarch64" and not sm["index"] and rng.random() < 0.08:
+    if isa == "aarch64" and not sm["index"] and rng.random() < 0.3:
         if rng.random() < 0.5:
             sm["disp"] = sm["disp"] or 16
             sm["pre"] = True
@@ -115,6 +115,15 @@ def stl_kernel(rng, isa, vocab, curated=False):
     if sm["post"]:
         delta[base] = (base, sm["post_val"])
     scenario = rng.random()
+    wb_copy = False
+    if (sm["pre"] or sm["post"]) and copies and rng.random() < 0.6:
+        # the store's own write-back moves the base before any later access: loads through a copy of the base taken right
+        # after the store (a load through the base itself has a register dependency on the store anyway)
+        kernel.append(copy_instance(rng, isa, rng.choice(copies), third, base, curated))
+        delta[third] = delta[base]
+        tags.update(["with_copy", "writeback_store_then_copy"])
+        wb_copy = True
+        scenario = 1.0
     if scenario < 0.12 and bumps and copies:
         # bump, copy, bump again (original or copy): the copy must keep its own change record
         seq = []
@@ -133,7 +142,7 @@ def stl_kernel(rng, isa, vocab, curated=False):
             delta[target] = (delta[target][0], delta[target][1] + ins["bump"][3])
         kernel.extend(seq)
         tags.update(["with_bump", "with_copy", "bump_copy_bump"])
-    for _ in range(rng.choice([0, 0, 1, 1, 2, 3]) if scenario >= 0.12 else 0):
+    for _ in range(rng.choice([0, 0, 1, 1, 2, 3]) if scenario >= 0.12 and not wb_copy else 0):
         k = rng.random()
         if k < 0.4 and bumps:
             f = rng.choice(bumps)
@@ -189,8 +198,10 @@ def stl_kernel(rng, isa, vocab, curated=False):
         how = rng.choice(["exact", "exact", "exact", "off8", "off1", "otherbase", "viacopy", "otheridx", "otherscale"])
         if "bump_copy_bump" in tags:
             how = rng.choice(["exact", "viacopy", "viacopy", "off8"])
+        if wb_copy:
+            how = rng.choice(["viacopy", "viacopy", "viacopy_off"])
         lb = base
-        if how == "viacopy" and delta.get(third) and delta[third][0] == base:
+        if how in ("viacopy", "viacopy_off") and delta.get(third) and delta[third][0] == base:
             lb = third
         elif how == "otherbase":
             lb = third if not (delta.get(third) and delta[third] and delta[third][0] == base) else other
@@ -208,7 +219,10 @@ def stl_kernel(rng, isa, vocab, curated=False):
                 lm["disp"] = rng.choice([None, 8])
             if lm["sym"] != sm["sym"]:
                 near = True
-        if how == "off8":
+        if how == "viacopy_off":
+            # among the wrong displacements: the one that is right if the write-back is forgotten
+            lm["disp"] = want + rng.choice([8, -8, delta[base][1], -delta[base][1]])
+        elif how == "off8":
             lm["disp"] = want + rng.choice([8, -8])
         elif how == "off1":
             lm["disp"] = want + 1
